@@ -439,6 +439,44 @@ def timedRounds {P : Proto} (alt : P.Alt) : Nat → World P → Option (World P)
     | none => none
     | some w1 => timedRounds alt k w1
 
+/-! ## The fair suffix that delivers every datagram (C02 c)
+
+State: the world and, per direction, how much of the sender's history has been delivered in the
+suffix (`ca`: into `a`'s history, `cb`: into `b`'s).  One round: the ticks of `tickMoves`; then
+everything `a` has sent and `b` has not been handed yet (what is left over from the previous round —
+`a`'s answers while it processed deliveries — and the datagrams of `a`'s ticks) is delivered to `b`, in
+order; then everything `b` has sent (its tick datagrams and its answers of this round) to `a`, in
+order.  So every datagram sent in the suffix is delivered exactly once, in sending order. -/
+
+structure FairState (P : Proto) where
+  w : World P
+  ca : Nat
+  cb : Nat
+
+/-- the suffix starts now: what was sent before is not delivered any more -/
+def FairState.start {P : Proto} (w : World P) : FairState P := ⟨w, w.a.out.length, w.b.out.length⟩
+
+def deliverRangeD {P : Proto} (to : Side) (lo hi : Nat) (draws : List Nat) (alt : P.Alt) : List (Move P) :=
+  (List.range' lo (hi - lo)).map fun i => .deliver to i draws alt
+
+def fairRoundT {P : Proto} (draws : List Nat) (alt : P.Alt) (s : FairState P) : Option (FairState P) :=
+  match run s.w tickMoves with
+  | none => none
+  | some w1 =>
+    match run w1 (deliverRangeD .b s.ca w1.a.out.length draws alt) with
+    | none => none
+    | some w2 =>
+      match run w2 (deliverRangeD .a s.cb w2.b.out.length draws alt) with
+      | none => none
+      | some w3 => some ⟨w3, w1.a.out.length, w2.b.out.length⟩
+
+def fairRoundsT {P : Proto} (draws : List Nat) (alt : P.Alt) : Nat → FairState P → Option (FairState P)
+  | 0, s => some s
+  | k + 1, s =>
+    match fairRoundT draws alt s with
+    | none => none
+    | some s1 => fairRoundsT draws alt k s1
+
 /-- both sides online; everything submitted has been handed over, nothing is unacknowledged or queued
 and no resend is requested -/
 def World.quiescent {P : Proto} (w : World P) : Prop :=
